@@ -166,6 +166,19 @@ def check(ctx):
                "the unmark is the last status event" if not hits else
                "after clearing the default mark the key is marked again: an accepted assignment is reported as not user-defined")
 
+    # every accepted assignment clears the default mark: no way through _set_value to a normal return without the unmark (an
+    # early exit for "nothing changed" -- `cfg.items += [...]` assigns the stored proxy back -- would leave the key reported as default)
+    from engine.flow import returns_of
+    sv_ = model.method("Config", "_set_value")
+    gsv = an.cfg(sv_)
+    unmark_nodes = {n for n in gsv.nodes if any(is_unmark(e) for e in state.node_events(sv_, n))}
+    for r in returns_of(an, sv_):
+        p_ = must_pass(an, sv_, r, lambda n: n in unmark_nodes)
+        ctx.ob("user-route.unmarks-on-every-return", sv_, r.ast, p_ is None and bool(unmark_nodes),
+               "the default mark is cleared before _set_value returns" if p_ is None and unmark_nodes else
+               "_set_value can return without clearing the default mark (%s): an accepted assignment leaves the key reported as not user-defined"
+               % " -> ".join("%s@%s" % (x.kind, x.lineno) for x in (p_ or [])[:6]), node=r)
+
     # ---------------------------------------------------------------- (d) constructor
     init = model.method("Config", "__init__")
     g = an.cfg(init)
